@@ -17,6 +17,7 @@ import (
 
 	"github.com/DataDog/datadog-traceroute/icmp"
 	"github.com/DataDog/datadog-traceroute/packets"
+	"github.com/DataDog/datadog-traceroute/reversedns"
 	"github.com/DataDog/datadog-traceroute/traceroute"
 
 	"verif/harness/drive"
@@ -302,6 +303,7 @@ func checkC14() fw.Check {
 					c.Sample(map[string]any{"variant": vn, "repetitions": reps, "early_reads": early, "late_reads": late, "hops_accepted": acc})
 				}})
 			}
+			cases = append(cases, fw.Case{ID: "C14/rdns-fanout", Run: func(c *fw.Ctx) { runC14RdnsFanout(c, reps) }})
 			for i := 0; i < reps/2+1; i++ {
 				i := i
 				cases = append(cases, fw.Case{ID: fmt.Sprintf("C14/concurrent/%d", i), Run: func(c *fw.Ctx) { runC14Concurrent(c, i) }})
@@ -389,6 +391,28 @@ func runC14Concurrent(c *fw.Ctx, i int) {
 	if ok >= 2 {
 		c.Nontrivial(fmt.Sprintf("concurrent/%s", strings.Join(mix, "+")))
 	}
+}
+
+// runC14RdnsFanout: the reverse-DNS fan-out with many addresses and instant answers (first from the resolver, then
+// from the cache): lookups complete while the spawning loop is still iterating.
+func runC14RdnsFanout(c *fw.Ctx, reps int) {
+	resetProcessState()
+	rs := installResolver(func(addr string) ([]string, error, time.Duration) { return namesFor(addr), nil, 0 })
+	defer rs.restore()
+	var ips []net.IP
+	for i := 0; i < 120; i++ {
+		ips = append(ips, net.IPv4(203, 0, byte(113+i/250), byte(1+i%250)).To4())
+		if i%3 == 0 {
+			ips = append(ips, ips[len(ips)-1]) // duplicates
+		}
+	}
+	n := 0
+	for r := 0; r < reps*4; r++ {
+		m, _ := reversedns.GetReverseDnsForIPs(ips)
+		n += len(m)
+	}
+	c.Count("rdns_fanout_lookups", n)
+	c.Nontrivial("rdns-fanout")
 }
 
 func runC14Request(c *fw.Ctx, i int) {
